@@ -223,7 +223,7 @@ fn all_str_facets() -> Vec<StrFacets> {
     }
     // enumerations alone: EVERY ordered list of 0..3 distinct members over a 6-string alphabet (the
     // generator keeps the declaration order, which need not be sorted in any way)
-    let alphabet = ["a", "b", "c", "é€", "10", "9"];
+    let alphabet = ["a", "b", "c", "é€", "10", "9", " a"];
     let mut lists: Vec<Vec<String>> = vec![vec![]];
     let mut frontier: Vec<Vec<String>> = vec![vec![]];
     for _ in 0..3 {
@@ -273,7 +273,7 @@ fn int_values(min: i128, max: i128, full: bool) -> Vec<i128> {
 
 fn strings() -> Vec<String> {
     let mut v: Vec<String> =
-        ["", "a", "b", "c", "10", "9", "é€", "ab", "aé€", "12", "-1", "+1", "007", "2147483648", "abc", "-2147483649", "9223372036854775808", "\u{1d11e}", "a\u{1d11e}", "\u{1d11e}\u{1f600}", "-9223372036854775809", "18446744073709551616", "170141183460469231731687303715884105727"]
+        ["", "a", "b", "c", "10", "9", "é€", " a", "a ", "a\n", "\ta", " ", "ab", "aé€", "12", "-1", "+1", "007", "2147483648", "abc", "-2147483649", "9223372036854775808", "\u{1d11e}", "a\u{1d11e}", "\u{1d11e}\u{1f600}", "-9223372036854775809", "18446744073709551616", "170141183460469231731687303715884105727"]
             .iter()
             .map(|s| s.to_string())
             .collect();
@@ -677,7 +677,7 @@ pub fn check(tier: &str) -> i32 {
     rep.set("distinct_nontrivial", json!(nt));
     rep.set("rule", json!("complete product: 8 integer carriers x all 9^4 numeric facet sets over B={i32::MIN,-129,-1,0,1,127,256,i32::MAX} x carrier values (i8/u8 full range; wider: MIN, MAX, i32::MIN-1, i32::MAX+1, b-1,b,b+1 for b in B); String x (all 9^4 numeric sets) and x (all 5^3x5 length/enumeration sets x <=1 numeric facet) x 35 strings; Option/Vec(0..2) lifts under <=1 facet; f32/f64/bool under every set; every triple is generated exactly once, so all are distinct; non-trivial = a restriction set with at least one facet, or the restriction-absent case (which the property states explicitly)"));
     rep.set("exhaustive", json!(true));
-    rep.set("bound", json!("facet bounds in B, lengths in {0,1,2,3}, enumerations of <=2 strings combined with length facets, and every ordered enumeration of <=3 of 6 strings alone, Vec of <=2 items"));
+    rep.set("bound", json!("facet bounds in B, lengths in {0,1,2,3}, enumerations of <=2 strings combined with length facets, and every ordered enumeration of <=3 of 7 strings (one with a leading blank) alone; values with leading/trailing blanks, tab, line feed, Vec of <=2 items"));
     rep.set("raw_discrepancy_contexts", json!(all.len()));
     rep.set("minimal_discrepancies", json!(kept));
     rep.sample(json!({"carrier": "i64", "restriction": {"minInclusive": 0}, "value": "0", "expected": "Ok"}));
